@@ -22,8 +22,8 @@ from . import prop
 @prop(
     "C20",
     technique="wiring rule on the attrs.field(...) calls that create task inputs/outputs (converter + on_setattr), return-path rule on make_converter, exclusion-table extraction from TypeParser",
-    decides="(a) every attrs.field created for a task input in build_task_class has converter=make_converter(...) and on_setattr=attrs.setters.convert (assignment-time conversion/rejection), every output field has converter=make_converter(...); every return path of make_converter ends in the TypeParser instance (directly or as the last element of attrs.converters.pipe); (b) NOT_COERCIBLE_DEFAULT contains (str, Sequence) and (Sequence, str), is the default of TypeParser.__init__'s not_coercible parameter, and no in-repo TypeParser(...) call for field conversion overrides not_coercible or passes coercible=None.",
-    not_decided="the coercion recursion over nested types, idempotence of coercion, element types of containers (runtime reflection over typing objects).",
+    decides="(a) every attrs.field created for a task input in build_task_class has converter=make_converter(...) and on_setattr=attrs.setters.convert (assignment-time conversion/rejection), every output field has converter=make_converter(...); every return path of make_converter ends in the TypeParser instance (directly or as the last element of attrs.converters.pipe); (b) NOT_COERCIBLE_DEFAULT contains (str, Sequence) and (Sequence, str), has a (str, T) entry for every coercible (S, T) whose source S is an abstract type str is an instance of, is the default of TypeParser.__init__'s not_coercible parameter, and no in-repo TypeParser(...) call for field conversion overrides not_coercible or passes coercible=None.",
+    not_decided="the coercion recursion over nested types and unions, idempotence of coercion in general (runtime reflection over typing objects); decided structurally: compound coercers return only coerce_obj(<every element through expand_and_coerce>, type), and a str never reaches the sequence coercer with type(obj).",
     level_note="Trusted: attrs runs converters on __init__ and, with on_setattr=setters.convert, on assignment.",
 )
 def check_c20(A: Analysis, col: Collector):
@@ -107,6 +107,33 @@ def check_c20(A: Analysis, col: Collector):
             col.ok("C20.exclusions", f"NOT_COERCIBLE_DEFAULT contains {want}: strings are never split into sequences nor sequences joined into strings", A.loc(nc))
         else:
             col.fail("C20.exclusions", tp.qualname, f"exclusion-missing:{want[0]}->{want[1]}", f"NOT_COERCIBLE_DEFAULT no longer excludes {want[0]} -> {want[1]}", A.loc(nc))
+    # table agreement: every coercible (S, T) whose source S is an abstract type that str is an instance of
+    # needs a (str, T) exclusion, otherwise a string is taken apart into T
+    STR_SUPERS = {"Sequence", "Iterable", "Collection", "Container", "Reversible"}
+    EXEMPT_TARGETS = {"ndarray": "numpy.ndarray(<str>) raises TypeError (the constructor takes a shape): rejected, not split"}
+    cd = tp.class_assigns.get("COERCIBLE_DEFAULT")
+    if cd is None:
+        raise AnalysisError("TypeParser.COERCIBLE_DEFAULT not found")
+    cpairs = []
+    srcs = [cd.value] + [n.value for n in ast.walk(tp.node) if isinstance(n, ast.AugAssign) and isinstance(n.target, ast.Name) and n.target.id == "COERCIBLE_DEFAULT"]
+    for src in srcs:
+        for e in ast.walk(src):
+            if isinstance(e, ast.Tuple) and len(e.elts) == 2 and all(isinstance(x, (ast.Name, ast.Attribute)) for x in e.elts):
+                cpairs.append((norm(e.elts[0]).rsplit(".", 1)[-1], norm(e.elts[1]).rsplit(".", 1)[-1], e))
+    if len(cpairs) < 12:
+        raise AnalysisError(f"C20: {len(cpairs)} literal pairs in COERCIBLE_DEFAULT; floor 12")
+    n_tab = 0
+    for s_, t_, e in cpairs:
+        if s_ in STR_SUPERS and t_ != "str":
+            n_tab += 1
+            if t_ in EXEMPT_TARGETS:
+                col.ok("C20.exclusions", f"coercible ({s_}, {t_}): {EXEMPT_TARGETS[t_]}", A.loc(e))
+            elif ("str", t_) in pairs:
+                col.ok("C20.exclusions", f"coercible ({s_}, {t_}) is matched by the exclusion (str, {t_})", A.loc(e))
+            else:
+                col.fail("C20.exclusions", tp.qualname, f"str-split-into:{t_}", f"COERCIBLE_DEFAULT allows {s_} -> {t_} and str is a {s_}, but NOT_COERCIBLE_DEFAULT has no (str, {t_}): a string given to a {t_}-typed field is accepted and split into its characters", A.loc(e))
+    if n_tab < 2:
+        raise AnalysisError("C20: coercible pairs with an abstract sequence source not found")
     init = tp.find_method("__init__")
     a = init.node.args
     names = [x.arg for x in a.args]
@@ -115,6 +142,66 @@ def check_c20(A: Analysis, col: Collector):
         col.ok("C20.exclusions", "TypeParser.__init__ defaults: coercible=COERCIBLE_DEFAULT, not_coercible=NOT_COERCIBLE_DEFAULT", A.loc(init.node))
     else:
         col.fail("C20.exclusions", init.qualname, "typeparser-defaults", "TypeParser.__init__ no longer defaults to the class-level coercion tables", A.loc(init.node))
+    # compound coercers rebuild the container from individually coerced elements: every return is
+    # coerce_obj(<comprehension applying expand_and_coerce to every element>, <type>)
+    co = tp.find_method("coerce")
+    if co is None:
+        raise AnalysisError("TypeParser.coerce not found")
+    col.scope(co.qualname)
+    n_comp = 0
+    for g in co.nested.values():
+        comps = [k for k in walk_own(g.node) if isinstance(k, (ast.ListComp, ast.DictComp, ast.GeneratorExp, ast.SetComp)) and any(isinstance(c, ast.Call) and isinstance(c.func, ast.Name) and c.func.id == "expand_and_coerce" for c in ast.walk(k))]
+        if not comps or g.name in ("expand_and_coerce", "coerce_union", "coerce_multi_input"):
+            continue
+        n_comp += 1
+        bad = []
+        for r in walk_own(g.node):
+            if isinstance(r, ast.Return):
+                v = r.value
+                first = v.args[0] if isinstance(v, ast.Call) and v.args else None
+                if isinstance(first, ast.Name):
+                    # a local holding the comprehension (its only definition)
+                    defs = [a_.value for a_ in walk_own(g.node) if isinstance(a_, ast.Assign) and any(isinstance(t_, ast.Name) and t_.id == first.id for t_ in a_.targets)]
+                    first = defs[0] if len(defs) == 1 else None
+                good = isinstance(v, ast.Call) and isinstance(v.func, ast.Name) and v.func.id == "coerce_obj" and len(v.args) == 2 and isinstance(first, (ast.ListComp, ast.DictComp, ast.GeneratorExp)) and not any(gen.ifs for gen in first.generators) and any(isinstance(c, ast.Call) and isinstance(c.func, ast.Name) and c.func.id == "expand_and_coerce" for c in ast.walk(first))
+                if not good:
+                    bad.append(r)
+        if bad:
+            col.fail("C20.elements", g.qualname, "compound-coercion-returns-uncoerced", f"`{norm(bad[0], 60)}` in {g.name}: a compound value is returned without being rebuilt from individually coerced elements by coerce_obj: elements that only compare equal to their coerced form (True == 1, 1.0 == 1) are stored with the wrong type / the container keeps its original type", A.loc(bad[0]))
+        else:
+            col.ok("C20.elements", f"{g.name}: every return is coerce_obj(<every element through expand_and_coerce>, type)", A.loc(g.node))
+    if n_comp < 3:
+        raise AnalysisError(f"C20: {n_comp} compound coercers found in TypeParser.coerce; floor 3 (mapping, tuple, sequence)")
+    # a value that already is an instance of the (abstract) origin is re-built as type(obj)(<list of coerced
+    # elements>); for a str that is str(list) -- the repr of the list of its characters. The branch that hands
+    # type(obj) to the sequence coercer must be preceded by a returning guard for strings.
+    # the expander is the nested function that computes `type(obj)` and dispatches to the compound coercers
+    cands = [g for g in co.nested.values() if any(isinstance(n, ast.Assign) and isinstance(n.value, ast.Call) and isinstance(n.value.func, ast.Name) and n.value.func.id == "type" for n in walk_own(g.node))]
+    if len(cands) != 1:
+        raise AnalysisError(f"C20: expected one nested function of TypeParser.coerce binding `type(obj)`, found {len(cands)}")
+    ex = cands[0]
+    tassign = next(n for n in walk_own(ex.node) if isinstance(n, ast.Assign) and isinstance(n.value, ast.Call) and isinstance(n.value.func, ast.Name) and n.value.func.id == "type")
+    tvar = tassign.targets[0].id
+    ovar = norm(tassign.value.args[0])
+    body = ex.node.body
+    seq_branches = [(i, st) for i, st in enumerate(body) if isinstance(st, ast.If) and "Iterable" in norm(st.test) and any(isinstance(n, ast.Call) and n.args and isinstance(n.args[0], ast.Name) and n.args[0].id == tvar for n in ast.walk(st))]
+    A.anchor("branch of expand_and_coerce handing type(obj) to the sequence coercer", seq_branches)
+    for i, st in seq_branches:
+        guard = None
+        for j in range(i):
+            g_ = body[j]
+            if not isinstance(g_, ast.If):
+                continue
+            t = g_.test
+            mentions = any(isinstance(c, ast.Call) and isinstance(c.func, ast.Name) and c.func.id in ("isinstance", "issubclass") and len(c.args) == 2 and norm(c.args[0]) in (ovar, tvar) and any(isinstance(k, ast.Name) and k.id == "str" for k in ast.walk(c.args[1])) for c in ast.walk(t))
+            ends = isinstance(g_.body[-1], (ast.Return, ast.Raise))
+            passes = any(isinstance(n, ast.Call) and n.args and isinstance(n.args[0], ast.Name) and n.args[0].id == tvar for n in ast.walk(g_))
+            if mentions and ends and not passes:
+                guard = g_
+        if guard is not None:
+            col.ok("C20.elements", f"{ex.name}: strings are returned/rejected by `if {norm(guard.test, 50)}` before `{tvar} = type({ovar})` reaches the sequence coercer", A.loc(guard))
+        else:
+            col.fail("C20.elements", ex.qualname, "str-rebuilt-from-character-list", f"a string that is an instance of an abstract Sequence/Iterable/Collection origin reaches `{norm(st.body[-1], 60)}` with {tvar} = type({ovar}) = str: it is re-built as str(<list of its characters>), i.e. stored as the repr of that list, and changes again on every further coercion", A.loc(st))
     # the exclusion is consulted before the inclusion list in the coercibility check
     n_sites = 0
     for f in A.repo.all_functions():
